@@ -13,6 +13,8 @@ package centrifuge
 // map=1 / map=2 combine EmitPresence with MapClientPresenceChannel / MapUserPresenceChannel on the
 // subscription (MemoryMapBroker + GetMapChannelOptions configured): the regular presence entry is then
 // removed by Client.removeMapPresence instead of the else-branch of Client.unsubscribe.
+// Fault injection: mrfail=1 makes every MapBroker.Remove return an error (nothing removed there);
+// prfail=1 makes PresenceManager.RemovePresence report an error AFTER the removal landed.
 //
 // Labels: S (start / advance the client-side subscribe attempt), Sf (the OnSubscribe handler answers
 // with an error), Sl (the history read after the presence add fails), U (Client.Unsubscribe),
@@ -107,7 +109,20 @@ func (b *vc06Broker) History(ch string, opts HistoryOptions) ([]*Publication, St
 
 type vc06Presence struct {
 	*MemoryPresenceManager
-	g *vc06Gates
+	g          *vc06Gates
+	failRemove bool
+}
+
+type vc06MapBroker struct {
+	*MemoryMapBroker
+	failRemove bool
+}
+
+func (b *vc06MapBroker) Remove(ctx context.Context, ch string, key string, opts MapRemoveOptions) (MapUpdateResult, error) {
+	if b.failRemove {
+		return MapUpdateResult{}, ErrorInternal
+	}
+	return b.MemoryMapBroker.Remove(ctx, ch, key, opts)
 }
 
 func (p *vc06Presence) AddPresence(ch string, uid string, info *ClientInfo) error {
@@ -133,7 +148,11 @@ func (p *vc06Presence) RemovePresence(ch string, clientID string, userID string)
 	default:
 		p.g.gate("U@rmpres")
 	}
-	return p.MemoryPresenceManager.RemovePresence(ch, clientID, userID)
+	err := p.MemoryPresenceManager.RemovePresence(ch, clientID, userID)
+	if err == nil && p.failRemove {
+		return ErrorInternal // the removal landed, the call reports a failure
+	}
+	return err
 }
 
 type vc06Transport struct {
@@ -305,11 +324,13 @@ func vc06Scenario(line string) (res string) {
 	if len(parts) != 2 || !strings.HasPrefix(strings.TrimSpace(parts[0]), "prun") {
 		return "bad-op"
 	}
-	mapMode := "0"
+	mapMode, mrFail, prFail := "0", false, false
 	for _, kv := range strings.Fields(parts[0]) {
 		if strings.HasPrefix(kv, "map=") {
 			mapMode = strings.TrimPrefix(kv, "map=")
 		}
+		mrFail = mrFail || kv == "mrfail=1"
+		prFail = prFail || kv == "prfail=1"
 	}
 	labelPart, expPart, hasExp := strings.Cut(parts[1], ";")
 	labels := strings.Fields(labelPart)
@@ -346,7 +367,7 @@ func vc06Scenario(line string) (res string) {
 		if err != nil {
 			return "ERR map-broker"
 		}
-		node.SetMapBroker(mapBroker)
+		node.SetMapBroker(&vc06MapBroker{MemoryMapBroker: mapBroker, failRemove: mrFail})
 	}
 	subOpts := SubscribeOptions{EmitPresence: true, EnablePositioning: true}
 	switch mapMode {
@@ -358,7 +379,7 @@ func vc06Scenario(line string) (res string) {
 	mb, _ := NewMemoryBroker(node, MemoryBrokerConfig{})
 	node.SetBroker(&vc06Broker{MemoryBroker: mb, g: g})
 	mp, _ := NewMemoryPresenceManager(node, MemoryPresenceManagerConfig{})
-	node.SetPresenceManager(&vc06Presence{MemoryPresenceManager: mp, g: g})
+	node.SetPresenceManager(&vc06Presence{MemoryPresenceManager: mp, g: g, failRemove: prFail})
 	node.OnConnecting(func(context.Context, ConnectEvent) (ConnectReply, error) {
 		return ConnectReply{Credentials: &Credentials{UserID: "u1"}}, nil
 	})
